@@ -352,3 +352,58 @@ Qed.
 (* Standard on a 16-bit-digit type: bytes 1,2,3,4 -> digits 0x0201, 0x0403 *)
 Example C20_ex_standard : U_standard 16 2 [1; 2; 3; 4; 5] = RVal [513; 1027] [5].
 Proof. vm_compute. reflexivity. Qed.
+
+(* ---- tie to the source: /repo/src/random.rs (cargo feature `rand`) is REGENERATED on every run (Generated/RandGen.v, tools/rs2v_rand.py):
+   the two `Distribution<..> for Standard` impls, the Fill impls and BOTH expansions of `uniform_int_impl!` - ($BUint<N>, $BUint<N>) -> U_ functions,
+   ($BInt<N>, $BUint<N>, to_bits, from_bits) -> I_ functions: `new`, `new_inclusive`, `sample`, `sample_single`, `sample_single_inclusive`
+   with the rejection `loop`.  The generated code threads the model's own RNG representation (the byte stream `s`; vocabulary
+   Model/ImpRand.v) and computes exactly the model's functions, for every digit width, digit count n, operands of n digits, stream,
+   both build modes and EVERY budget: the generated loop and `sample_loop` spend one unit of fuel per draw, so `NoFuel` on the left
+   is `ROutOfFuel` on the right.  `of_rres` reads the model's result type constructor by constructor (next theorem). ---- *)
+From Bnum.Model Require Import Imp ImpRand.
+From Bnum.Generated Require Import RandGen.
+From Bnum.Proofs Require Import RandGenTie.
+Theorem C20_rand_result_reading : forall (A : Type) (a : A) (rest : stream),
+  of_rres (RVal a rest) = Done (Some (a, rest)) /\ of_rres (@RPanic A) = Panicked /\
+  of_rres (@ROutOfStream A) = Done None /\ of_rres (@ROutOfFuel A) = NoFuel.
+Proof. exact (fun A a rest => conj eq_refl (conj eq_refl (conj eq_refl eq_refl))). Qed.
+Print Assumptions C20_rand_result_reading.
+(* $BUint::widening_mul (src/buint/bigint_helpers.rs: two nested `while` loops over `low` / `high`), the `v.widening_mul(range)` of the
+   rejection loop, REGENERATED on every run (RandGen.widening_mul): equal to the model's Mul.U_widening_mul (one 2N-digit accumulator) for
+   every digit width, digit count, well-formed operands and fuel > N - in particular no index out of bounds, no `usize` underflow. *)
+From Bnum.Proofs Require Import RandGenTieMul.
+Theorem C20_rand_widening_mul_rs_matches_model : forall (w : Z) (n : nat) (a b : list Z), 0 < w -> wf w n a -> wf w n b ->
+  forall fuel : nat, (S n <= fuel)%nat ->
+  RandGen.widening_mul w (Z.of_nat n) fuel a b = Done (U_widening_mul w a b).
+Proof. exact rand_widening_mul. Qed.
+Print Assumptions C20_rand_widening_mul_rs_matches_model.
+(* `impl Fill for Slice<$BUint<N>>` / `Slice<$BInt<N>>` (both expansions of fill_impl!) and `try_fill_slice`, REGENERATED on every run: equal to
+   the model's try_fill_slice for every digit width, digit count, slice (any length, 0 included) and stream; the result carries the updated
+   slice (`Ok(())`), `Done None` is the `Err` of a generator that ran dry (`?`).  The unsafe raw byte view of the slice is the modelled primitive
+   ImpRand.rng_fill_raw; the tie shows that the byte count the code passes is the size of the whole slice. *)
+From Bnum.Proofs Require Import RandGenTieFill.
+Theorem C20_rand_fill_rs_matches_model : forall (w : Z) (n fuel : nat) (slice : list (list Z)) (s : stream),
+  let N := Z.of_nat n in
+  RandGen.U_try_fill w N fuel slice s = of_rres (U_try_fill_slice w n (length slice) s) /\
+  RandGen.I_try_fill w N fuel slice s = of_rres (I_try_fill_slice w n (length slice) s) /\
+  RandGen.U_try_fill_slice w N fuel slice s = of_rres (U_try_fill_slice w n (length slice) s) /\
+  RandGen.I_try_fill_slice w N fuel slice s = of_rres (I_try_fill_slice w n (length slice) s).
+Proof. exact rand_C20_fill_match_model. Qed.
+Print Assumptions C20_rand_fill_rs_matches_model.
+Theorem C20_rand_rs_matches_model : forall (dbg : bool) (w : Z) (n fuel : nat) (low high : list Z) (u : uniform) (s : stream),
+  length low = n -> length high = n -> length (u_low u) = n -> length (u_range u) = n ->
+  let N := Z.of_nat n in
+  RandGen.U_standard w N fuel s = of_rres (U_standard w n s) /\
+  RandGen.I_standard w N fuel s = of_rres (I_standard w n s) /\
+  RandGen.U_uniform_new_inclusive dbg w N fuel low high = of_outcome (U_uniform_new_inclusive dbg w low high) /\
+  RandGen.I_uniform_new_inclusive dbg w N fuel low high = of_outcome (I_uniform_new_inclusive dbg w low high) /\
+  RandGen.U_uniform_new dbg w N fuel low high = of_outcome (U_uniform_new dbg w low high) /\
+  RandGen.I_uniform_new dbg w N fuel low high = of_outcome (I_uniform_new dbg w low high) /\
+  RandGen.U_uniform_sample dbg w N fuel u s = of_rres (uniform_sample fuel false dbg w u s) /\
+  RandGen.I_uniform_sample dbg w N fuel u s = of_rres (uniform_sample fuel true dbg w u s) /\
+  RandGen.U_sample_single_inclusive dbg w N fuel low high s = of_rres (U_sample_single_inclusive fuel dbg w low high s) /\
+  RandGen.I_sample_single_inclusive dbg w N fuel low high s = of_rres (I_sample_single_inclusive fuel dbg w low high s) /\
+  RandGen.U_sample_single dbg w N fuel low high s = of_rres (U_sample_single fuel dbg w low high s) /\
+  RandGen.I_sample_single dbg w N fuel low high s = of_rres (I_sample_single fuel dbg w low high s).
+Proof. exact rand_C20_match_model. Qed.
+Print Assumptions C20_rand_rs_matches_model.
